@@ -281,16 +281,8 @@ def build():
     some = {k: ('%s:%s' % (v[0], v[1])) for k, v in ACC_SOME.items()}
     ast_text, n_nodes, n_acc = genast.generate(some, {k: (v[1], '%s:%s' % (v[0], v[2])) for k, v in ACC_CUSTOM.items()}, ACC_REQUIRES)
     U.raw(open(__file__.replace('units/sema.py', 'contracts/sema.context2.rs')).read())
-    # the names of the standard gate library: read, on every run, from the string literals of SymbolTable::standard_library_gates
-    from vlib.rustsrc import RustFile as _RFs
-    _rfs = _RFs(os.path.join(REPO, 'crates/oq3_semantics/src/symbols.rs'))
-    try:
-        _it = _rfs.find_fn('standard_library_gates', None, 1)
-        _names = sorted(set(re.findall(r'"(\w+)"', _rfs.src[_it['header_start']:_it['end']])))
-    except KeyError:
-        _names = []
-    U.raw('/// a gate name of the standard library (generated from SymbolTable::standard_library_gates)\npub open spec fn std_gate(n: Seq<char>) -> bool { %s }\n'
-          % (' || '.join('n == "%s"@' % n_ for n_ in _names) or 'false'))
+    from units.stdgates import std_gate_spec
+    U.raw(std_gate_spec())
     U.raw('''pub mod synast {
 use vstd::prelude::*;
 pub mod ast { pub use super::*; }
